@@ -389,15 +389,35 @@ def gen_printing(repo):
     body = strip_doc(oo.body)
     if len(oo.args.args) != 1 or oo.args.args[0].arg != "number":
         terr(oo, "order_of does not take one parameter `number`")
-    if len(body) != 2 or not isinstance(body[0], ast.Assign) or not isinstance(body[1], ast.Return):
-        terr(oo, "order_of is not `result = ...; return ...`")
+    if len(body) < 2 or not isinstance(body[0], ast.Assign):
+        terr(oo, "order_of does not begin with `result = ...`")
     if ast.unparse(body[0].targets[0]) != "result" or \
             Exec(tree, "ERROR").ev(body[0].value, {"number": ("num", "error")}) != ("order", "error"):
         terr(body[0], "result is not m.floor(m.log10(abs(number)))")
-    r = body[1].value
-    if not (isinstance(r, ast.IfExp) and isinstance(r.test, ast.Compare) and len(r.test.ops) == 1
+    # the rest is one decision `A if T else B`, written as a conditional expression, as `if T: return A` followed by
+    # `return B`, or as `if T: return A else: return B`
+    rest = body[1:]
+
+    def single_return(stmts):
+        return stmts[0].value if len(stmts) == 1 and isinstance(stmts[0], ast.Return) and stmts[0].value is not None else None
+    if len(rest) == 1 and isinstance(rest[0], ast.Return) and isinstance(rest[0].value, ast.IfExp):
+        test, r_then, r_else = rest[0].value.test, rest[0].value.body, rest[0].value.orelse
+    elif len(rest) == 2 and isinstance(rest[0], ast.If) and not rest[0].orelse and single_return(rest[0].body) is not None \
+            and single_return(rest[1:]) is not None:
+        test, r_then, r_else = rest[0].test, single_return(rest[0].body), single_return(rest[1:])
+    elif len(rest) == 1 and isinstance(rest[0], ast.If) and single_return(rest[0].body) is not None \
+            and single_return(rest[0].orelse) is not None:
+        test, r_then, r_else = rest[0].test, single_return(rest[0].body), single_return(rest[0].orelse)
+    else:
+        terr(oo, "order_of is not `result = ...` followed by one decision between two returned values")
+
+    class _R:      # the decision, in the shape the checks below were written for
+        pass
+    r = _R()
+    r.test, r.body, r.orelse = test, r_then, r_else
+    if not (isinstance(r.test, ast.Compare) and len(r.test.ops) == 1
             and isinstance(r.test.ops[0], ast.GtE) and ast.unparse(r.test.left) == "abs(number)"):
-        terr(body[1], "order_of does not return `a if abs(number) >= ... else b`")
+        terr(oo, "order_of does not decide on `abs(number) >= ...`")
     rhs = r.test.comparators[0]
     if not (isinstance(rhs, ast.BinOp) and isinstance(rhs.op, ast.Mult) and isinstance(rhs.left, ast.BinOp)
             and isinstance(rhs.left.op, ast.Pow) and isinstance(rhs.left.left, ast.Constant)
